@@ -735,6 +735,24 @@ def _sq(net):
     return True
 
 
+def _cpu_squeeze(net, dims):
+    """a float32 side branch (own network input and output) with a SQUEEZE that stays on the CPU; squeeze_dims = dims (all-zero vectors are
+    legal option values: [0] squeezes the batch axis)"""
+    shape = [1, 1, 3, 4]
+    x = net.act(shape, "float32", name="fin%d" % len(net.tensors), noquant=True)
+    net.inputs.append(x)
+    new = [d for i, d in enumerate(shape) if i not in dims]
+    y = net.act(new, "float32", noquant=True)
+    keep = net.cur
+    net.op("SQUEEZE", [x], [y], ("SqueezeOptions", dict(SqueezeDims=list(dims))))
+    net.cur = keep
+    return True
+
+
+inst("cpu_squeeze0")(lambda n: _cpu_squeeze(n, [0]))
+inst("cpu_squeeze01", "t")(lambda n: _cpu_squeeze(n, [0, 1]))
+
+
 # CPU-only steps -------------------------------------------------------------------------------
 @inst("cpu_d2s")
 def _d2s(net):
@@ -813,7 +831,7 @@ SIGMA_Q = [
     "conv1x1", "conv3x3", "conv3x3s2", "conv3x3v_relu6", "conv3x3d2", "dw3x3", "dw3x3s2", "fc", "maxpool2x2",
     "avgpool2x2", "avgpool3x3same", "add_res", "add_const", "add_scalar", "add_bcast_h", "sub_const", "mul_const",
     "min_const", "relu", "leaky_relu", "logistic", "tanh", "hard_swish", "reshape", "concat", "split", "strided_slice",
-    "pad_hw", "pad_c", "mean", "resize_nn2", "quantize", "tconv_s2", "softmax", "cpu_d2s", "cpu_custom", "conv_dynw", "cpu_neg", "tap", "branch_cpu", "branch_npu", "conv_dynw_nobias", "cpu_custom_opt", "conv3x3_c1", "slice", "conv_again", "conv_pair_shared", "reshape_requant", "fc_fc_sq", "conv_c3_sq", "cpu_conv_s4", "cpu_conv_s4_pair", "logistic_coarse", "c24_reshape_w_relu", "conv_then_c1",
+    "pad_hw", "pad_c", "mean", "resize_nn2", "quantize", "tconv_s2", "softmax", "cpu_d2s", "cpu_custom", "conv_dynw", "cpu_neg", "tap", "branch_cpu", "branch_npu", "conv_dynw_nobias", "cpu_custom_opt", "conv3x3_c1", "slice", "conv_again", "conv_pair_shared", "reshape_requant", "fc_fc_sq", "conv_c3_sq", "cpu_conv_s4", "cpu_conv_s4_pair", "logistic_coarse", "c24_reshape_w_relu", "conv_then_c1", "cpu_squeeze0",
 ]
 SIGMA_T = SIGMA_Q + [n for n, (_, tags) in INSTANCES.items() if "t" in tags]
 SIGMA_C = [n for n, (_, tags) in INSTANCES.items() if "c" in tags]
